@@ -137,6 +137,49 @@ def first_step_nodes(repo, c: ClassInfo, loop: FuncInfo, target: FuncInfo, g, pm
     return out
 
 
+def r4_worker_signals(ctx: Context) -> None:
+    """One worker's death stays that worker's death: what a worker's own signal handler sets must not be an object the
+    parent hands to ALL its workers (a shared stop event makes every sibling - and every replacement - leave its loop)."""
+    ctx.rule("R4", "a worker process's signal handler does not set an event the parent shares between workers: the value passed for that parameter at the Process(...) construction is created per worker, not one attribute of the parent given to every worker")
+    repo = ctx.repo
+    n = 0
+    for c in repo.cls("BaseRunner").all_subclasses():
+        for m in c.methods.values():
+            for call in calls_in(m.node):
+                if call_name(call) != "Process":
+                    continue
+                tgt = next((k.value for k in call.keywords if k.arg == "target"), None)
+                kw = next((k.value for k in call.keywords if k.arg == "kwargs"), None)
+                if not isinstance(tgt, ast.Name) or kw is None:
+                    continue
+                target = repo.resolve_name(m.module, tgt.id)
+                if not isinstance(target, FuncInfo):
+                    continue
+                # the kwargs dictionary: literal or a local bound to a literal
+                d = kw
+                if isinstance(kw, ast.Name):
+                    from .c01 import _reaching_values
+
+                    vals = [v for v in _reaching_values(m, kw.id) if isinstance(v, ast.Dict)]
+                    d = vals[0] if len(vals) == 1 else None
+                if not isinstance(d, ast.Dict):
+                    continue
+                passed = {k.value: v for k, v in zip(d.keys, d.values) if isinstance(k, ast.Constant)}
+                # parameters the worker's signal handlers call .set() on
+                handlers = set()
+                for x in ast.walk(target.node):
+                    if isinstance(x, ast.Call) and call_name(x) == "signal" and len(x.args) == 2 and isinstance(x.args[1], ast.Name):
+                        handlers.add(x.args[1].id)
+                for h in [x for x in ast.walk(target.node) if isinstance(x, (ast.FunctionDef, ast.AsyncFunctionDef)) and x.name in handlers]:
+                    for s_ in ast.walk(h):
+                        if isinstance(s_, ast.Call) and isinstance(s_.func, ast.Attribute) and s_.func.attr == "set" and isinstance(s_.func.value, ast.Name) and s_.func.value.id in passed:
+                            n += 1
+                            v = passed[s_.func.value.id]
+                            shared = self_attr(v) is not None and isinstance(v, ast.Attribute)
+                            ctx.add("R4", f"{target.qualname}::{h.name}::sets-only-this-workers-event", not shared, target.loc(s_), "" if not shared else f"the handler sets `{s_.func.value.id}`, which {m.qualname} passes as `{ast.unparse(v)}` - ONE object for every worker: a single worker that is terminated makes all its siblings leave their loops, and every replacement is started with the event already set and exits at once; the pool never gets back to capacity")
+    ctx.floor("R4", "events set from worker signal handlers", n, 1)
+
+
 def run(ctx: Context) -> None:
     ctx.rule("R1", "for each runner that tracks child processes: runner_loop_iteration reaches (through self.* calls) a removal from the tracking table of entries whose process is not alive, and that removal precedes the spawn decision on every path of the iteration")
     ctx.rule("R2", "the spawn decision compares the size of the tracking table (after pruning) with the runner's configured capacity attribute")
@@ -302,6 +345,7 @@ def run(ctx: Context) -> None:
         plain = (isinstance(st_i, ast.Expr)) or (isinstance(st_i, ast.If) and not st_i.orelse and any(isinstance(x, ast.Call) and call_name(x) == "get_active_child_runner_ids" for x in ast.walk(st_i.test)) or (isinstance(st_i, ast.If) and isinstance(st_i.test, ast.Name) and st_i.test.id in src))
         ok = plain and i_ < j_ and (k_ is None or i_ < k_)
     ctx.add("R3", f"{runf.qualname}::heartbeats-every-iteration", ok, runf.loc(), "" if ok else "the run loop does not unconditionally report child heartbeats at the start of every iteration (before the atomic services / recovery)")
+    r4_worker_signals(ctx)
     ctx.exhaustive = True
     ctx.not_decided += [
         "sequences of worker deaths over several iterations and the timing 'within the next loop iterations' (needs controllable stand-in processes)",
